@@ -130,7 +130,7 @@ fn persist_kmer<K: Raw + serde::Serialize + serde::de::DeserializeOwned>(raw: u1
     let k = K::from_raw(raw);
     let s = serde_json::to_string(&k).unwrap();
     let k2: K = serde_json::from_str(&s).unwrap();
-    if k == k2 && k.to_string() == k2.to_string() { "roundtrip=ok".into() } else { format!("kmer:{}", s) }
+    if k == k2 && k.to_string() == k2.to_string() { format!("roundtrip=ok|json={}", esc(&s)) } else { format!("kmer:{}", s) }
 }
 
 fn persist_graph<K: Kmer + Send + Sync + serde::Serialize + serde::de::DeserializeOwned>(a: &[&str]) -> String {
@@ -156,7 +156,8 @@ fn persist_graph<K: Kmer + Send + Sync + serde::Serialize + serde::de::Deseriali
             }
         }
     }
-    "roundtrip=ok".into()
+    // the text of the base graph (the finished graph adds the two perfect-hash indexes, whose layout belongs to boomphf)
+    format!("roundtrip=ok|json={}", esc(&bs))
 }
 
 fn persist_misc(a: &[&str]) -> String {
@@ -166,19 +167,19 @@ fn persist_misc(a: &[&str]) -> String {
             let d = DnaString::from_bytes(&digits(a[2]));
             let s = serde_json::to_string(&d).unwrap();
             let d2: DnaString = serde_json::from_str(&s).unwrap();
-            if d == d2 && d.to_string() == d2.to_string() && d.len() == d2.len() { "roundtrip=ok".into() } else { "dna-differs".into() }
+            if d == d2 && d.to_string() == d2.to_string() && d.len() == d2.len() { format!("roundtrip=ok|json={}", esc(&s)) } else { "dna-differs".into() }
         }
         "exts" => {
             let e = Exts::new(u8::from_str_radix(a[2], 16).unwrap());
             let s = serde_json::to_string(&e).unwrap();
             let e2: Exts = serde_json::from_str(&s).unwrap();
-            if e == e2 { "roundtrip=ok".into() } else { "exts-differs".into() }
+            if e == e2 { format!("roundtrip=ok|json={}", esc(&s)) } else { "exts-differs".into() }
         }
         "lmer" => {
             let l = Lmer3::from_slice(&digits(a[2]));
             let s = serde_json::to_string(&l).unwrap();
             let l2: Lmer3 = serde_json::from_str(&s).unwrap();
-            if l == l2 && l.len() == l2.len() { "roundtrip=ok".into() } else { "lmer-differs".into() }
+            if l == l2 && l.len() == l2.len() { format!("roundtrip=ok|json={}", esc(&s)) } else { "lmer-differs".into() }
         }
         _ => panic!("bad persist"),
     }
